@@ -660,7 +660,7 @@ def _wiring_case(c):
 
 
 def wiring(chk: Check):
-    cfg = "INIT Init\nNEXT Next\nCHECK_DEADLOCK FALSE\nINVARIANT Forwarded\nINVARIANT DesignHolds\nINVARIANT Emit\n"
+    cfg = "INIT Init\nNEXT Next\nCHECK_DEADLOCK FALSE\nINVARIANT Forwarded\nINVARIANT DesignHolds\nINVARIANT GeneratorGetsUserGeometry\nINVARIANT Emit\n"
     res = run_tlc("Wiring", cfg, workers=1)
     chk.add_tlc(res)
     if res.violated:
